@@ -140,6 +140,32 @@ def MC(self, x, y, z, u):
     return self.c.outputs.ox, self.c.outputs.oy, self.c.outputs.oz
 
 
+@as_function_node("ox", "oy", "oz", validate_output_labels=False, use_cache=False)
+def CG(x: list[int], y: dict[str, int], z):
+    """inputs hinted with subscripted generics: mutable values that can stop satisfying their hint in place"""
+    CALLS.append((x, y, z))
+    return x, y, z
+
+
+@as_function_node("ox", "oy", "oz", validate_output_labels=False)
+def CGC(x: list[int], y: dict[str, int], z):
+    """CG with the cache on"""
+    CALLS.append((x, y, z))
+    return x, y, z
+
+
+@as_macro_node("ox", "oy", "oz", use_cache=False)
+def MG(self, x, y, z):
+    self.c = CG(x=x, y=y, z=z)
+    return self.c.outputs.ox, self.c.outputs.oy, self.c.outputs.oz
+
+
+@as_macro_node("ox", "oy", "oz", use_cache=False)
+def MGT(self, x: list[int], y: dict[str, int], z):
+    self.c = CG(x=x, y=y, z=z)
+    return self.c.outputs.ox, self.c.outputs.oy, self.c.outputs.oz
+
+
 # ----------------------------------------------------------------------------- adversarial values
 
 
@@ -314,11 +340,31 @@ def _factories():
         241: lambda: np.int64(3),
         242: lambda: np.array([1, 2]),
         243: lambda: np.bool_(True),
+        # mutable values and what they look like after their other holder changed them in place
+        250: lambda: [7, 8],
+        251: lambda: ["a", "b"],
+        252: lambda: {"a": 1},
+        253: lambda: {1: "x"},
+        254: lambda: [7, 8, 9],
     }
 
 
 ADV_KEYS = (200, 201, 202, 203, 204, 205, 206, 210, 211, 212, 213, 214, 220, 221, 222, 223, 224, 225, 226, 227,
-            230, 231, 232, 240, 241, 242, 243)
+            230, 231, 232, 240, 241, 242, 243, 250, 251, 252, 253, 254)
+# in-place changes the harness (the other holder of the object) can make: value index before -> after
+MUTATIONS = {(250, 251), (251, 250), (250, 254), (254, 250), (252, 253), (253, 252)}
+
+
+def mutate(obj, k2):
+    """change `obj` in place so that it has the content of pool value `k2`"""
+    new = make(k2)
+    if type(obj) is list:
+        obj[:] = new
+    elif type(obj) is dict:
+        obj.clear()
+        obj.update(new)
+    else:
+        raise AssertionError(f"not a mutable pool value: {type(obj)}")
 
 
 def make(k):
@@ -341,6 +387,8 @@ def tag(v):
         return "float:" + float.__repr__(v)
     if t is list:
         return "list:" + ",".join(tag(x) for x in list.__iter__(v))
+    if t is dict:
+        return "dict:" + ",".join(tag(a) + "=" + tag(b) for a, b in dict.items(v))
     if type.__instancecheck__(type, v):
         return "cls:" + type.__getattribute__(v, "__module__") + "." + type.__getattribute__(v, "__qualname__")
     if t in (IntEq, IntNoBool):
